@@ -1,0 +1,13 @@
+//go:build verif
+
+package gostring
+
+// Contracts for the gostring plugin (C09, C01: generator-level and text-level obligations), read by /verif's gvc (comment-only file).
+
+//@ func (g *gen) Add(name string, typs []types.Type) (r string, err error)
+//@ param typs: len=0,1,2,3
+//@ param name: classes=Ident
+
+//@ func (g *gen) Generate(typs []types.Type) (err error)
+//@ param typs: len=1
+//@ emits: decls
